@@ -274,6 +274,11 @@ def run(ctx):
             verdict + ": for a nonce whose K1 is 00 (one-byte message, found by search through the library) the standard's encryption draws again; "
             "the library tests the whole K1||K2 (proposed_fixes/C10-sm9-encrypt-k1-zero.diff)")
 
+    # key encapsulation around "K all zero: draw again" (klen = 1, one nonce in 256): recorded through the library with a scripted stream
+    # whose first nonce gives K = 00; Trace_Sm9!TWrapK0 decides (the retry uses the NEXT block only, unwrapping returns the key)
+    wz = ctx.record("sm9-wrapzero", 2 if quick else 6, name="sm9-wrapzero")
+    ctx.validate("Trace_Sm9", wz, "sm9-wrapzero", shards=1 if quick else 3, guard=False, label="wrapzero", timeout=1500)
+
     # ---- C continued: replay
     mct.join()
     kat.join()
